@@ -140,6 +140,11 @@ func lookupAll(idx index.Index, queries []cid.Cid) string {
 		var offs []uint64
 		err := idx.GetAll(q, func(o uint64) bool { offs = append(offs, o); return true })
 		sort.Slice(offs, func(i, j int) bool { return offs[i] < offs[j] })
+		// what is compared is the class of the answer (found / not found / another error), not the
+		// text of the not-found error: a wrapped ErrNotFound is the same answer
+		if errors.Is(err, index.ErrNotFound) {
+			err = index.ErrNotFound
+		}
 		fmt.Fprintf(&sb, "%v/%v;", offs, err)
 	}
 	return sb.String()
@@ -150,11 +155,30 @@ func forEachAll(idx index.Index) string {
 	if !ok {
 		return "n/a"
 	}
-	var l []string
+	type e struct {
+		mh  string
+		off uint64
+	}
+	var es []e
 	err := it.ForEach(func(mh multihash.Multihash, o uint64) error {
-		l = append(l, fmt.Sprintf("%x@%d", []byte(mh), o))
+		es = append(es, e{string(mh), o})
 		return nil
 	})
+	// the sequence of multihashes is compared as iterated; the order of the offsets inside one run of
+	// equal multihashes is the order the format (and the statement) leave open
+	var l []string
+	for i := 0; i < len(es); {
+		j := i
+		for j < len(es) && es[j].mh == es[i].mh {
+			j++
+		}
+		run := es[i:j]
+		sort.Slice(run, func(a, b int) bool { return run[a].off < run[b].off })
+		for _, x := range run {
+			l = append(l, fmt.Sprintf("%x@%d", x.mh, x.off))
+		}
+		i = j
+	}
 	return fmt.Sprintf("%v/%v", l, err)
 }
 
@@ -162,7 +186,10 @@ func forEachAll(idx index.Index) string {
 // (the order the format leaves open); ok=false when the index is not iterable.
 func forEachList(idx index.Index) (l []string, ok bool, err error) {
 	it, ok := idx.(index.IterableIndex)
-	if !ok {
+	if !ok || idx.Codec() == multicodec.CarIndexSorted {
+		// the digest-only codec keeps no hash codes, so it cannot enumerate the multihashes that were loaded:
+		// whatever a ForEach of it does (absent, unsupported error, ...) is only compared before/after the
+		// round trip (forEachAll), not with the reference
 		return nil, false, nil
 	}
 	type e struct {
@@ -230,6 +257,87 @@ func normaliseIndexBytes(b []byte) ([]byte, []refcar.IndexRecord, error) {
 	return refcar.EncodeIndex(codec, recs), recs, nil
 }
 
+// sameIndexBytes compares two serialized indexes: byte for byte when no digest repeats, otherwise after
+// normalising the order inside each run of equal digests (the order the format and the statement leave open).
+func sameIndexBytes(a, b []byte, repeats bool) bool {
+	if !repeats {
+		return bytes.Equal(a, b)
+	}
+	na, _, e1 := normaliseIndexBytes(a)
+	nb, _, e2 := normaliseIndexBytes(b)
+	return e1 == nil && e2 == nil && bytes.Equal(na, nb)
+}
+
+// c11SubMultiset reports whether every value of a occurs in b at least as often as in a.
+func c11SubMultiset(a, b []uint64) bool {
+	m := map[uint64]int{}
+	for _, v := range b {
+		m[v]++
+	}
+	for _, v := range a {
+		if m[v]--; m[v] < 0 {
+			return false
+		}
+	}
+	return true
+}
+
+// c11DedupRecs drops exact duplicates: records that repeat an earlier one in everything the codec stores
+// (digest and offset; the hash code too unless digestOnly). dup reports whether there was one.
+func c11DedupRecs(recs []c11rec, digestOnly bool) (out []c11rec, dup bool) {
+	seen := map[string]bool{}
+	for _, r := range recs {
+		k := fmt.Sprintf("%x@%d", r.digest, r.off)
+		if !digestOnly {
+			k = fmt.Sprintf("%x:%s", r.code, k)
+		}
+		if seen[k] {
+			dup = true
+			continue
+		}
+		seen[k] = true
+		out = append(out, r)
+	}
+	return out, dup
+}
+
+// c11Want is what an on-disk index of the given records must serialize to and answer.
+type c11Want struct {
+	what    string
+	bytes   []byte
+	lookup  string
+	offs    [][]uint64 // per alphabet key
+	forEach []string
+}
+
+func c11Expect(what string, recs []c11rec, codecN uint64) c11Want {
+	w := c11Want{what: what, offs: make([][]uint64, len(c11Alphabet)), forEach: wantForEach(recs)}
+	var refRecs []refcar.IndexRecord
+	for _, r := range recs {
+		refRecs = append(refRecs, refcar.IndexRecord{MhCode: r.code, Digest: r.digest, Offset: r.off})
+	}
+	w.bytes = refcar.EncodeIndex(codecN, refRecs)
+	var sb strings.Builder
+	for qi, q := range c11Alphabet {
+		var offs []uint64
+		for _, r := range recs {
+			if bytes.Equal(r.digest, q.digest) && (codecN == refcar.CodecIndexSorted || r.code == q.code) {
+				offs = append(offs, r.off)
+			}
+		}
+		sort.Slice(offs, func(i, j int) bool { return offs[i] < offs[j] })
+		w.offs[qi] = offs
+		if len(offs) == 0 {
+			fmt.Fprintf(&sb, "[]/%v;", index.ErrNotFound)
+		} else {
+			fmt.Fprintf(&sb, "%v/<nil>;", offs)
+		}
+	}
+	fmt.Fprintf(&sb, "[]/%v;", index.ErrNotFound)
+	w.lookup = sb.String()
+	return w
+}
+
 func runC11(c any, x *kit.Ctx) {
 	cs := c.(C11Case)
 	if cs.Kind == "flatten" {
@@ -250,31 +358,16 @@ func runC11(c any, x *kit.Ctx) {
 		queries = append(queries, r.cid())
 	}
 	queries = append(queries, kit.Absent.Cid)
-	// reference expectation
-	var refRecs []refcar.IndexRecord
-	for _, r := range recs {
-		refRecs = append(refRecs, refcar.IndexRecord{MhCode: r.code, Digest: r.digest, Offset: r.off})
-	}
+	// reference expectation. A multiset that holds one record twice (same digest, same offset, same code where
+	// the codec stores it) has two legal indexes: the statement fixes that the form depends on the multiset
+	// only, not whether the second copy of an identical entry is kept. Both references are accepted, the same
+	// one for every load order and for everything observed (bytes, lookups, iteration).
 	codecN := uint64(codec)
-	wantBytes := refcar.EncodeIndex(codecN, refRecs)
-	var wantLookup strings.Builder
-	wantOffs := make([][]uint64, len(c11Alphabet))
-	for qi, q := range c11Alphabet {
-		var offs []uint64
-		for _, r := range recs {
-			if bytes.Equal(r.digest, q.digest) && (codecN == refcar.CodecIndexSorted || r.code == q.code) {
-				offs = append(offs, r.off)
-			}
-		}
-		sort.Slice(offs, func(i, j int) bool { return offs[i] < offs[j] })
-		wantOffs[qi] = offs
-		if len(offs) == 0 {
-			fmt.Fprintf(&wantLookup, "[]/%v;", index.ErrNotFound)
-		} else {
-			fmt.Fprintf(&wantLookup, "%v/<nil>;", offs)
-		}
+	variants := []c11Want{c11Expect("the record multiset", recs, codecN)}
+	if dd, dup := c11DedupRecs(recs, codecN == refcar.CodecIndexSorted); dup {
+		variants = append(variants, c11Expect("the record multiset without exact duplicates", dd, codecN))
 	}
-	fmt.Fprintf(&wantLookup, "[]/%v;", index.ErrNotFound)
+	chosen := -1
 
 	repeats := false
 	seen := map[string]bool{}
@@ -321,9 +414,26 @@ func runC11(c any, x *kit.Ctx) {
 			x.Fail("c11:not-canonical:"+tag, "serialized index rejected by the strict reference decoder (bucket/record ordering, lengths): %v; bytes %x", err, buf.Bytes())
 			return
 		}
-		if !bytes.Equal(norm, wantBytes) {
-			x.Fail("c11:bytes-vs-reference:"+tag, "serialized form (normalised inside equal-digest runs) differs from the reference encoding of the record multiset: got %x want %x", norm, wantBytes)
+		vi := -1
+		for i, v := range variants {
+			if bytes.Equal(norm, v.bytes) {
+				vi = i
+				break
+			}
 		}
+		if vi < 0 {
+			x.Fail("c11:bytes-vs-reference:"+tag, "serialized form (normalised inside equal-digest runs) differs from the reference encoding of the record multiset: got %x want %x", norm, variants[0].bytes)
+			vi = 0
+		} else if len(variants) > 1 {
+			x.Outcome("beyond-statement:exact-duplicates-kept=" + fmt.Sprint(vi == 0))
+		}
+		if chosen < 0 {
+			chosen = vi
+		} else if chosen != vi {
+			x.Fail("c11:order-dependent:"+tag, "whether an exact duplicate is kept depends on the load order: %s in one order, %s in another", variants[chosen].what, variants[vi].what)
+		}
+		want := variants[vi]
+		wantBytes, wantLookup, wantOffs := want.bytes, want.lookup, want.offs
 		if !repeats && !bytes.Equal(buf.Bytes(), wantBytes) {
 			x.Fail("c11:bytes-vs-reference-exact:"+tag, "no digest repeats, yet bytes differ from the canonical encoding: got %x want %x", buf.Bytes(), wantBytes)
 		}
@@ -333,19 +443,33 @@ func runC11(c any, x *kit.Ctx) {
 			x.Fail("c11:order-dependent:"+tag, "bytes depend on load order: %x vs %x", firstBytes, buf.Bytes())
 		}
 		// lookups before the round trip
-		if got := lookupAll(idx, queries); got != wantLookup.String() {
-			x.Fail("c11:lookup:"+tag, "GetAll answers %s want %s", got, wantLookup.String())
+		if got := lookupAll(idx, queries); got != wantLookup {
+			x.Fail("c11:lookup:"+tag, "GetAll answers %s want %s", got, wantLookup)
 		}
 		// the per-order extras below do not depend on the load order beyond what the first and the reversed
 		// order show; for multisets of 5 records they run on those two orders only (all orders below that)
 		permIndex++
 		extras := len(recs) < 5 || permIndex == 1 || isReversed(p)
 		if extras {
-			// Load must not disturb the caller's records
+			// Load must leave the caller his records. The statement says nothing about their ORDER in the
+			// caller's slice afterwards (a Load that groups or sorts in place is legal): a reordering is noted,
+			// a slice that no longer holds the same records is a violation.
+			reordered := false
+			var before, after []string
 			for k, i := range p {
 				if !load[k].Cid.Equals(recs[i].cid()) || load[k].Offset != recs[i].off {
-					x.Fail("c11:load-mutates-input:"+tag, "Load changed the caller's record slice at %d", k)
-					break
+					reordered = true
+				}
+				before = append(before, fmt.Sprintf("%s@%d", recs[i].cid().KeyString(), recs[i].off))
+				after = append(after, fmt.Sprintf("%s@%d", load[k].Cid.KeyString(), load[k].Offset))
+			}
+			if reordered {
+				sort.Strings(before)
+				sort.Strings(after)
+				if fmt.Sprint(before) != fmt.Sprint(after) {
+					x.Fail("c11:load-mutates-input:"+tag, "Load changed the records in the caller's slice (not only their order)")
+				} else {
+					x.Outcome("beyond-statement:load-reorders-input")
 				}
 			}
 			// serializing twice gives the same bytes
@@ -382,12 +506,13 @@ func runC11(c any, x *kit.Ctx) {
 			}
 			// iteration, against the order the format implies (multihash index) - before and after the round trip
 			if l, ok, err := forEachList(idx); ok {
-				if want := wantForEach(recs); err != nil || fmt.Sprint(l) != fmt.Sprint(want) {
-					x.Fail("c11:foreach:"+tag, "ForEach yields %v (err %v) want %v", l, err, want)
+				if err != nil || fmt.Sprint(l) != fmt.Sprint(want.forEach) {
+					x.Fail("c11:foreach:"+tag, "ForEach yields %v (err %v) want %v", l, err, want.forEach)
 				}
-				// a callback error at the k-th call comes back unchanged and stops the iteration
+				// a callback error at the k-th call comes back (errors.Is) and stops the iteration; k ranges over
+				// the entries the iteration actually has
 				it := idx.(index.IterableIndex)
-				for k := 0; k < len(recs); k++ {
+				for k := 0; k < len(l); k++ {
 					calls := 0
 					err := it.ForEach(func(multihash.Multihash, uint64) error {
 						calls++
@@ -418,8 +543,8 @@ func runC11(c any, x *kit.Ctx) {
 					break
 				}
 				norm, _, err := normaliseIndexBytes(sb.Bytes())
-				if err != nil || !bytes.Equal(norm, wantBytes) || lookupAll(split, queries) != wantLookup.String() {
-					x.Fail("c11:split-load:"+tag, "records inserted by Load(first %d) then Load(the other %d) give a different index than one Load of all (decode err %v): lookups %s want %s", k, len(load)-k, err, lookupAll(split, queries), wantLookup.String())
+				if err != nil || !bytes.Equal(norm, wantBytes) || lookupAll(split, queries) != wantLookup {
+					x.Fail("c11:split-load:"+tag, "records inserted by Load(first %d) then Load(the other %d) give a different index than one Load of all (decode err %v): lookups %s want %s", k, len(load)-k, err, lookupAll(split, queries), wantLookup)
 					break
 				}
 			}
@@ -440,8 +565,8 @@ func runC11(c any, x *kit.Ctx) {
 			x.Fail("c11:roundtrip-foreach:"+tag, "ForEach differs after round trip: %s vs %s", a, b)
 		}
 		if l, ok, err := forEachList(idx2); ok {
-			if want := wantForEach(recs); err != nil || fmt.Sprint(l) != fmt.Sprint(want) {
-				x.Fail("c11:foreach-after-roundtrip:"+tag, "ForEach of the index read back yields %v (err %v) want %v", l, err, want)
+			if err != nil || fmt.Sprint(l) != fmt.Sprint(want.forEach) {
+				x.Fail("c11:foreach-after-roundtrip:"+tag, "ForEach of the index read back yields %v (err %v) want %v", l, err, want.forEach)
 			}
 		}
 		// the other reader capability classes: seekable without ReadByte, Seek method that fails, one byte per
@@ -459,12 +584,18 @@ func runC11(c any, x *kit.Ctx) {
 			{"trailing-stream", drv.PlainReader{R: bytes.NewReader(junk)}},
 		} {
 			ix, err := index.ReadFrom(rk.r)
+			if err != nil && rk.name == "seekfail" {
+				// a reader whose Seek method always fails: whether ReadFrom falls back to plain reading is
+				// outside the statement (C03/C18 own that behaviour); what it reads, when it reads, is checked
+				x.Outcome("beyond-statement:readfrom-refuses-seekfail-reader")
+				continue
+			}
 			if err != nil {
 				x.Fail("c11:roundtrip-reader:"+rk.name+":"+tag, "ReadFrom over a %s reader failed: %v", rk.name, err)
 				continue
 			}
 			var rb bytes.Buffer
-			if _, err := index.WriteTo(ix, &rb); err != nil || !bytes.Equal(rb.Bytes(), buf.Bytes()) || lookupAll(ix, queries) != lookupAll(idx, queries) {
+			if _, err := index.WriteTo(ix, &rb); err != nil || !sameIndexBytes(rb.Bytes(), buf.Bytes(), repeats) || lookupAll(ix, queries) != lookupAll(idx, queries) {
 				x.Fail("c11:roundtrip-reader:"+rk.name+":"+tag, "index read over a %s reader differs (err %v)", rk.name, err)
 			}
 		}
@@ -474,11 +605,11 @@ func runC11(c any, x *kit.Ctx) {
 			x.Fail("c11:roundtrip-stream:"+tag, "ReadFrom over a plain stream: err %v or different lookups", err)
 		}
 		var buf2 bytes.Buffer
-		if _, err := index.WriteTo(idx2, &buf2); err != nil || !bytes.Equal(buf2.Bytes(), buf.Bytes()) {
-			x.Fail("c11:rewrite:"+tag, "WriteTo(ReadFrom(b)) != b (err %v)", err)
+		if _, err := index.WriteTo(idx2, &buf2); err != nil || !sameIndexBytes(buf2.Bytes(), buf.Bytes(), repeats) {
+			x.Fail("c11:rewrite:"+tag, "WriteTo(ReadFrom(b)) != b (byte for byte without repeated digests, up to the order inside equal-digest runs with them) (err %v)", err)
 		}
 	})
-	x.State(fmt.Sprintf("%s|%x", cs.Codec, wantBytes))
+	x.State(fmt.Sprintf("%s|%x", cs.Codec, variants[0].bytes))
 	x.Outcome(fmt.Sprintf("n=%d repeats=%v", len(recs), repeats))
 	if len(recs) >= 2 {
 		x.Nontrivial(fmt.Sprintf("%v|%s", cs.Recs, cs.Codec))
@@ -491,29 +622,48 @@ func runC11Insertion(cs C11Case, x *kit.Ctx) {
 	for _, i := range cs.Recs {
 		recs = append(recs, c11Alphabet[i])
 	}
-	var refRecs []refcar.IndexRecord
-	for _, r := range recs {
-		refRecs = append(refRecs, refcar.IndexRecord{MhCode: r.code, Digest: r.digest, Offset: r.off})
-	}
 	var queries []cid.Cid
 	for _, r := range c11Alphabet {
 		queries = append(queries, r.cid())
 	}
-	// the insertion index is keyed by the bare digest, as the digest-only codec is
-	var want strings.Builder
-	for _, q := range c11Alphabet {
-		var offs []uint64
-		for _, r := range recs {
-			if bytes.Equal(r.digest, q.digest) {
-				offs = append(offs, r.off)
+	// Which records a lookup of the in-memory insertion index matches is not part of the statement (today: every
+	// record with the key's bare digest, as the digest-only codec does). Required of an answer: every offset
+	// recorded under the key's multihash is there, nothing is there that was not recorded under the key's
+	// digest, not-found exactly when the answer is empty. An exact duplicate (same CID, same offset) may be
+	// held once or twice.
+	dedup, hasDup := c11DedupRecs(recs, false)
+	lower, upper := make([][]uint64, len(c11Alphabet)), make([][]uint64, len(c11Alphabet))
+	for qi, q := range c11Alphabet {
+		for _, r := range dedup {
+			if bytes.Equal(r.digest, q.digest) && r.code == q.code {
+				lower[qi] = append(lower[qi], r.off)
 			}
 		}
-		sort.Slice(offs, func(i, j int) bool { return offs[i] < offs[j] })
-		if len(offs) == 0 {
-			fmt.Fprintf(&want, "[]/%v;", index.ErrNotFound)
-		} else {
-			fmt.Fprintf(&want, "%v/<nil>;", offs)
+		for _, r := range recs {
+			if bytes.Equal(r.digest, q.digest) {
+				upper[qi] = append(upper[qi], r.off)
+			}
 		}
+	}
+	// the two legal iterations / flattened forms: of the multiset, and (with an exact duplicate) of the set
+	wantIter := []string{fmt.Sprint(wantForEach(recs))}
+	if hasDup {
+		wantIter = append(wantIter, fmt.Sprint(wantForEach(dedup)))
+	}
+	oneOf := func(got string, l []string) bool {
+		for _, w := range l {
+			if w == got {
+				return true
+			}
+		}
+		return false
+	}
+	refBytes := func(rs []c11rec, cn string) []byte {
+		var refRecs []refcar.IndexRecord
+		for _, r := range rs {
+			refRecs = append(refRecs, refcar.IndexRecord{MhCode: r.code, Digest: r.digest, Offset: r.off})
+		}
+		return refcar.EncodeIndex(uint64(codecOf(cn)), refRecs)
 	}
 	for _, how := range []string{"insert", "load", "load-reversed"} {
 		ii := index.NewInsertionIndex()
@@ -539,11 +689,20 @@ func runC11Insertion(cs C11Case, x *kit.Ctx) {
 				continue
 			}
 		}
-		if got := lookupAll(ii, queries); got != want.String() {
-			x.Fail("c11:insertion:lookup", "insertion index (%s) answers %s want %s", how, got, want.String())
+		for qi, q := range queries {
+			var got []uint64
+			err := ii.GetAll(q, func(o uint64) bool { got = append(got, o); return true })
+			okErr := err == nil && len(got) > 0 || errors.Is(err, index.ErrNotFound) && len(got) == 0
+			if !okErr || !c11SubMultiset(lower[qi], got) || !c11SubMultiset(got, upper[qi]) {
+				x.Fail("c11:insertion:lookup", "insertion index (%s) answers key #%d with %v, %v; recorded under its multihash: %v, under its digest: %v", how, qi, got, err, lower[qi], upper[qi])
+				break
+			}
+			if len(got) != len(upper[qi]) && !hasDup {
+				x.Outcome("beyond-statement:insertion-lookup-not-by-bare-digest")
+			}
 		}
-		if l, _, err := forEachList(ii); err != nil || fmt.Sprint(l) != fmt.Sprint(wantForEach(recs)) {
-			x.Fail("c11:insertion:foreach", "insertion index (%s) iterates %v (err %v) want %v", how, l, err, wantForEach(recs))
+		if l, _, err := forEachList(ii); err != nil || !oneOf(fmt.Sprint(l), wantIter) {
+			x.Fail("c11:insertion:foreach", "insertion index (%s) iterates %v (err %v) want %v", how, l, err, wantIter[0])
 		}
 		var cl []string
 		ii.ForEachCid(func(c cid.Cid, o uint64) error {
@@ -551,8 +710,8 @@ func runC11Insertion(cs C11Case, x *kit.Ctx) {
 			return nil
 		})
 		sort.Strings(cl)
-		if fmt.Sprint(cl) != fmt.Sprint(wantForEach(recs)) {
-			x.Fail("c11:insertion:foreachcid", "insertion index (%s) iterates CIDs %v want %v", how, cl, wantForEach(recs))
+		if !oneOf(fmt.Sprint(cl), wantIter) {
+			x.Fail("c11:insertion:foreachcid", "insertion index (%s) iterates CIDs %v want %v", how, cl, wantIter[0])
 		}
 		// the writer's byte count
 		var buf bytes.Buffer
@@ -575,7 +734,11 @@ func runC11Insertion(cs C11Case, x *kit.Ctx) {
 				continue
 			}
 			norm, _, err := normaliseIndexBytes(fb.Bytes())
-			if err != nil || !bytes.Equal(norm, refcar.EncodeIndex(uint64(codecOf(cn)), refRecs)) {
+			okBytes := err == nil && bytes.Equal(norm, refBytes(recs, cn))
+			if dd, dup := c11DedupRecs(recs, cn == "sorted"); err == nil && !okBytes && dup {
+				okBytes = bytes.Equal(norm, refBytes(dd, cn)) // exact duplicates stored once
+			}
+			if !okBytes {
 				x.Fail("c11:insertion:flatten-bytes:"+cn, "Flatten(%s) of the insertion index (%s) is not the canonical index of its records (decode err %v)", cn, how, err)
 			}
 		}
@@ -625,6 +788,16 @@ func runC11Flatten(cs C11Case, x *kit.Ctx) {
 		x.Fail("c11:flatten-read", "embedded index unreadable: %v", err)
 		return
 	}
+	// do two entries of the embedded index share a digest? (then the order inside that run is open)
+	repeats := false
+	seen := map[string]bool{}
+	for _, r := range f.Index {
+		k := fmt.Sprintf("%x:%x", r.MhCode, r.Digest)
+		if seen[k] {
+			repeats = true
+		}
+		seen[k] = true
+	}
 	// the codec is the requested one, in the file, in the flattened and in the regenerated index
 	if wantCodec := uint64(codecOf(cs.Codec)); f.IndexCodec != wantCodec || uint64(flat.Codec()) != wantCodec || uint64(gen.Codec()) != wantCodec {
 		x.Fail("c11:flatten-codec:"+wk, "requested index codec %#x: file has %#x, embedded index reads as %#x, GenerateIndex gives %#x", wantCodec, f.IndexCodec, uint64(flat.Codec()), uint64(gen.Codec()))
@@ -642,8 +815,8 @@ func runC11Flatten(cs C11Case, x *kit.Ctx) {
 		x.Fail("c11:flatten-read", "ReadFrom(IndexReader()): %v", err)
 	} else {
 		var vb bytes.Buffer
-		if _, err := index.WriteTo(viaReader, &vb); err != nil || !bytes.Equal(vb.Bytes(), f.IndexRaw) {
-			x.Fail("c11:flatten-indexreader:"+wk, "index read through Reader.IndexReader() re-serializes differently from the embedded bytes (err %v)", err)
+		if _, err := index.WriteTo(viaReader, &vb); err != nil || !sameIndexBytes(vb.Bytes(), f.IndexRaw, repeats) {
+			x.Fail("c11:flatten-indexreader:"+wk, "index read through Reader.IndexReader() re-serializes differently from the embedded bytes (beyond the order inside equal-digest runs) (err %v)", err)
 		}
 	}
 	var queries []cid.Cid
@@ -656,15 +829,6 @@ func runC11Flatten(cs C11Case, x *kit.Ctx) {
 	queries = append(queries, kit.Absent.Cid)
 	if a, b := lookupAll(flat, queries), lookupAll(gen, queries); a != b {
 		x.Fail("c11:flatten-lookup", "flattened session index and regenerated index answer differently: %s vs %s", a, b)
-	}
-	repeats := false
-	seen := map[string]bool{}
-	for _, r := range f.Index {
-		k := fmt.Sprintf("%x:%x", r.MhCode, r.Digest)
-		if seen[k] {
-			repeats = true
-		}
-		seen[k] = true
 	}
 	if !repeats && !bytes.Equal(f.IndexRaw, gb.Bytes()) {
 		x.Fail("c11:flatten-bytes", "no two sections share a digest, yet flattened and regenerated index bytes differ: %x vs %x", f.IndexRaw, gb.Bytes())
@@ -727,13 +891,16 @@ func init() {
 		Run:    runC11,
 		Decode: kit.DecodeAs[C11Case],
 		Rule: "every record multiset up to the bound over 17 records (4 hash codes, widths 0/1/20/32/64/65/2100, equal digests under different codes, duplicate digests at different offsets, exact duplicates, offsets up to 2^63) x ALL load-order permutations x both codecs; " +
-			"plus Flatten(session index) vs GenerateIndex(finished file) for every put history up to the bound; non-trivial = >=2 records",
+			"plus Flatten(session index) vs GenerateIndex(finished file) for every put history up to the bound; non-trivial = >=2 records. " +
+			"Oracles follow the statement only: errors are compared by class (errors.Is ErrNotFound), never by text; the order inside a run of equal digests/multihashes is open everywhere (bytes after a round trip, ForEach before/after); " +
+			"a multiset with an exact duplicate may serialize/answer as the multiset or as its de-duplicated set (the same choice in every load order); the digest-only codec is not compared with the reference enumeration; " +
+			"lookups of the in-memory insertion index are bounded (recorded under the multihash <= answer <= recorded under the digest); reordering of the caller's slice by Load and a refusal of a reader whose Seek fails are recorded as beyond-statement outcomes",
 		Bound: func(tier string) map[string]any {
 			if tier == "thorough" {
 				return map[string]any{"multiset_size": 5, "records": 17, "permutations": "all", "flatten_history_len": 3}
 			}
 			return map[string]any{"multiset_size": 4, "records": 17, "permutations": "all", "flatten_history_len": 2}
 		},
-		Assumptions: []string{"refcar index codec is correct"},
+		Assumptions: []string{"refcar index codec is correct", "a record repeated exactly (same multihash, same offset) carries no information the statement requires to be kept twice"},
 	})
 }
